@@ -25,6 +25,7 @@ from __future__ import annotations
 import ast
 from dataclasses import dataclass
 from dataclasses import field
+from typing import Any
 from typing import Dict
 from typing import FrozenSet
 from typing import List
@@ -847,8 +848,39 @@ class PartialOps:
                 if int(ev[len("minlen:"):].split("@")[0]) >= need:
                     out.append(PSite(fn, node, "LAST", [], discharged=f"dominated by a length test ({ev.split('@')[0]})"))
                     return
-        # assert len(x) == n
+        # an element of a constant table: every row is long enough
+        rows = self._constant_rows(fn, base.id)
+        if rows is not None and all(isinstance(r, (tuple, list, str)) and len(r) >= need for r in rows):
+            out.append(PSite(fn, node, "LAST", [], discharged=f"element of a constant table whose {len(rows)} rows all have >= {need} items"))
+            return
         out.append(PSite(fn, node, "LAST", ["IndexError"], note=f"`{base.id}` may be empty here"))
+
+    def _constant_rows(self, fn: FuncInfo, name: str) -> Optional[List[Any]]:
+        """The folded iterable when `name` is bound only as the variable of loops / comprehensions over one
+        constant sequence."""
+        iters: List[ast.expr] = []
+        for n in ast.walk(fn.node):
+            if isinstance(n, (ast.For, ast.AsyncFor, ast.comprehension)) and isinstance(n.target, ast.Name) and n.target.id == name:
+                iters.append(n.iter)
+            elif isinstance(n, ast.Name) and n.id == name and isinstance(n.ctx, ast.Store):
+                pass
+        stores = sum(1 for n in ast.walk(fn.node) if isinstance(n, ast.Name) and n.id == name and isinstance(n.ctx, (ast.Store, ast.Del)))
+        if not iters or stores != len(iters):
+            return None
+        rows: List[Any] = []
+        for it in iters:
+            try:
+                from .consteval import Instance
+                from .consteval import Scope
+
+                loc = {"self": Instance(fn.cls)} if fn.cls is not None else {}
+                v = self.folder.eval(it, Scope(self.folder, fn.module, fn.cls, loc))
+            except NotConst:
+                return None
+            if not isinstance(v, (tuple, list)):
+                return None
+            rows.extend(v)
+        return rows
 
     def _table(self, fn: FuncInfo, node: ast.Subscript, table: dict, out: List[PSite]) -> None:
         key = node.slice
